@@ -20,13 +20,22 @@ type census struct {
 	GoStmts   []string `json:"go_stmts"`
 }
 
+// replayPrefix: runs executed earlier in the same process (regenerated from their seeds); state
+// that a defect keeps at process level makes a violation depend on them.
+type replayPrefix struct {
+	Mode  string   `json:"mode"`
+	Tier  string   `json:"tier"`
+	Seeds []uint64 `json:"seeds"`
+}
+
 type replayFile struct {
-	Property  string     `json:"property"`
-	Engine    string     `json:"engine"`
-	Seed      uint64     `json:"seed"`
-	Spec      *RunSpec   `json:"spec"`
-	Dec       *Decisions `json:"decisions"`
-	Violation *Violation `json:"violation"`
+	Prefix    *replayPrefix `json:"prefix,omitempty"`
+	Property  string        `json:"property"`
+	Engine    string        `json:"engine"`
+	Seed      uint64        `json:"seed"`
+	Spec      *RunSpec      `json:"spec"`
+	Dec       *Decisions    `json:"decisions"`
+	Violation *Violation    `json:"violation"`
 }
 
 func main() {
@@ -48,6 +57,25 @@ func main() {
 		fmt.Fprintln(os.Stderr, "unknown subcommand", os.Args[1])
 		os.Exit(2)
 	}
+}
+
+// prefixSeeds: seeds already executed in this process when the current run started.
+var prefixSeeds []uint64
+
+func genSpec(c *Corpus, pl pools, mode, tier string, seed uint64, failSites []string) *RunSpec {
+	switch mode {
+	case "c06":
+		return genC06(c, pl, seed, tier)
+	case "c09":
+		return genC09(c, pl, seed, tier, failSites)
+	case "c10":
+		return genC10(c, pl, seed, tier)
+	case "c04":
+		return genC04c(c, pl, seed, tier)
+	}
+	fmt.Fprintln(os.Stderr, "unknown mode", mode)
+	os.Exit(2)
+	return nil
 }
 
 func batchMain(args []string) {
@@ -84,6 +112,8 @@ func batchMain(args []string) {
 	runOne := func(sp *RunSpec, dec *Decisions, verbose bool) *RunResult {
 		before, _ := raceLogSize(*racelog)
 		r := execRun(c, rc, sp, dec)
+		r.PrefixSeeds = prefixSeeds
+		r.Tier = *tier
 		if *racelog != "" {
 			after, name := raceLogSize(*racelog)
 			if after > before {
@@ -111,6 +141,11 @@ func batchMain(args []string) {
 			fmt.Fprintln(os.Stderr, "replay:", err)
 			os.Exit(2)
 		}
+		if rf.Prefix != nil {
+			for _, ps := range rf.Prefix.Seeds {
+				execRun(c, rc, genSpec(c, pl, rf.Prefix.Mode, rf.Prefix.Tier, ps, cen.FailSites), nil)
+			}
+		}
 		runOne(rf.Spec, rf.Dec, true)
 		return
 	}
@@ -118,21 +153,13 @@ func batchMain(args []string) {
 	parts := strings.Split(*seeds, ":")
 	start, _ := strconv.ParseUint(parts[0], 10, 64)
 	count, _ := strconv.Atoi(parts[1])
+	var executed []uint64
 	for i := 0; i < count; i++ {
 		seed := start + uint64(i)
-		var sp *RunSpec
-		switch *mode {
-		case "c06":
-			sp = genC06(c, pl, seed, *tier)
-		case "c09":
-			sp = genC09(c, pl, seed, *tier, cen.FailSites)
-		case "c10":
-			sp = genC10(c, pl, seed, *tier)
-		default:
-			fmt.Fprintln(os.Stderr, "unknown mode", *mode)
-			os.Exit(2)
-		}
+		sp := genSpec(c, pl, *mode, *tier, seed, cen.FailSites)
+		prefixSeeds = append([]uint64(nil), executed...)
 		r := runOne(sp, nil, i < *samples)
+		executed = append(executed, seed)
 		if r.Violation != nil && r.Violation.Class == "race" {
 			// the detector reports each stack pair once per process: stop here, the orchestrator
 			// restarts the remaining seeds in a fresh process
@@ -142,4 +169,3 @@ func batchMain(args []string) {
 	}
 	fmt.Fprintf(w, "{\"batch_done\":true,\"ref_procs\":%d,\"ref_hits\":%d}\n", rc.Procs, rc.Hits)
 }
-
